@@ -290,7 +290,7 @@ theorem iterate_unfolds (n ln : Nat) (e : Expr) (x : Ident) (body : Option (List
               | some v => do
                 let ks ← newStr k
                 iterPass1 n vn body v
-              | none => goPanic
+              | none => pure false
             | _ => goPanic) order
         | _ => rtErr 80
       newNull) := evalStmt_iterate1 n ln e x body
